@@ -98,6 +98,13 @@ Definition view_matches (s : kstate) (h r : N) : Prop :=
   forall vid st, find_view (kpos_of s) h r = Ok (vid, st) -> st = ViewFound ->
     v_h (get_view s vid) = h /\ v_r (get_view s vid) = r.
 
+Lemma forallb_signed_entries f l : forallb f l = true -> forallb f (signed_entries l) = true.
+Proof.
+  unfold signed_entries. induction l as [|e l IH]; cbn; [reflexivity|].
+  intros H. apply andb_true_iff in H as [He Hl].
+  destruct (snd e); cbn; [apply IH; exact Hl|]. rewrite He. apply IH; exact Hl.
+Qed.
+
 Theorem all_invalid_is_noop_at kind s m s' res :
   view_matches s (vm_h m) (vm_r m) ->
   msg_all_invalid (keys_for s m) kind m = true ->
@@ -119,9 +126,9 @@ Proof.
       destruct (negb (bytes_eqb _ _)); [intros E; inversion E; subst; repeat split; discriminate|].
       destruct (match coll_of _ _ with Some c => c | None => _ end) as [spkh stored].
       match goal with |- context [fold_left ?f ?l ?a] =>
-        pose proof (future_fold_all_invalid kind (vm_h m) (vm_r m) (vs_keys (v_vals (k_vot s))) spkh (vm_pkh m) (vm_proofs m)
+        pose proof (future_fold_all_invalid kind (vm_h m) (vm_r m) (vs_keys (v_vals (k_vot s))) spkh (vm_pkh m) (signed_entries (vm_proofs m))
                       (map (fun x => (fst x, fst (fst (merge_sparse kind (vm_h m) (vm_r m) (fst x) (vs_keys (v_vals (k_vot s))) [] (snd x))))) stored)
-                      true Hall) as Hf
+                      true (forallb_signed_entries _ _ Hall)) as Hf
       end.
       cbv zeta in Hf.
       destruct (fold_left _ _ _) as [[full' allv] inc]. cbn in Hf. subst inc.
